@@ -15,7 +15,7 @@ def build_jobs(prop, tier, seed, names, include_points=False, zero_cap_stream=Tr
         from framework.props.calls import scopes
 
         sc = scopes(tier)[name]
-        heavy = name.startswith("affine") or name in ("gcc", "relation", "element_liv")
+        heavy = name.startswith("affine") or name in ("gcc", "relation", "element_liv", "lexicographic_leq")
         if heavy and len(sc["arity"]) > 1:
             for a in sc["arity"]:
                 jobs.append(Job("framework.props.calls", "run_calls",
@@ -45,6 +45,17 @@ def build_jobs(prop, tier, seed, names, include_points=False, zero_cap_stream=Tr
                              "points": 0.15 if include_points else 0.03,
                              "deadline_s": 150 if q else 900},
                             mode=mode, timeout=400 if q else 1500, tag="rnd:%s:%d" % (mode, c)))
+    # deep-arity stream: types whose behaviour depends on longer structure, on narrow overlapping domains
+    deep = [n for n in ("lexicographic_leq", "alldifferent", "gcc", "element_liv", "element_lic", "relation",
+                        "no_sub_cycle", "scc", "count_eq", "exactly_eq", "max_eq", "min_eq") if n in names]
+    if deep:
+        for c in range(2 if q else 6):
+            jobs.append(Job("framework.props.calls", "run_calls",
+                            {"props": props, "names": deep, "kind": "random", "tier": tier,
+                             "seed": seed * 50021 + c * 31 + 7, "count": (700 if q else 8000) * len(deep),
+                             "opts": {"max_arity": 8 if c % 2 else 6, "width": 2, "base": 2, "allow_all_zero": True},
+                             "points": 0.05, "deadline_s": 100 if q else 900},
+                            mode="jit" if c % 2 else "interp", timeout=400 if q else 1500, tag="deep:%d" % c))
     if zero_cap_stream and "gcc" in names:
         # targeted stream for the gcc zero-capacity mechanism (interpreted only: the line budget cuts its endless loop)
         jobs.append(Job("framework.props.calls", "run_calls",
